@@ -271,6 +271,9 @@ func scenariosFor(prop string) []scn {
 		// the store refuses position flushes (twice in a row at bound 2) and the pipeline is then stopped gracefully:
 		// the stop must still complete
 		both(flowParams{Sources: 1, Records: 3, Batch: 1, Dests: 1, AckMenu: onlyOK, Stop: "stopwait", Faults: true, Bundle: 1}, 2, 3)
+		// system shutdown after the store refused position flushes: StopAll, Wait and the persister's own Wait (the
+		// runtime's sequence) must all return
+		both(flowParams{Sources: 1, Records: 3, Batch: 1, Dests: 1, AckMenu: onlyOK, Stop: "stopall", Faults: true, Bundle: 1}, 2, 3)
 		// system shutdown: StopAll (a graceful stop that carries a reason) followed by Wait
 		both(flowParams{Sources: 1, Records: 3, Batch: 1, Dests: 1, AckMenu: onlyOK, Stop: "stopall"}, 2, 3)
 		both(flowParams{Sources: 1, Records: 2, Batch: 1, Dests: 2, AckMenu: []string{"ok", "defer"}, Stop: "stopall"}, 2, 3)
